@@ -1,7 +1,9 @@
 #!/bin/bash
 # usage: seedrun.sh <seed name> <property> [extra vcheck args]: applies the seeded patch to /repo, runs the check, restores /repo.
 NAME=$1; PROP=$2; shift 2
+cp /verif/evidence/$PROP.json /tmp/evidence_$PROP.bak 2>/dev/null
 cd /repo && git apply /verif/seeded/$NAME/patch.diff || exit 2
 cd /verif && ./bin/vcheck run "$@" $PROP > /tmp/seedrun_${NAME}_${PROP}.log 2>&1; RC=$?
 cd /repo && git checkout -- . 
+cp /verif/evidence/$PROP.json /tmp/seedrun_${NAME}_${PROP}.evidence.json 2>/dev/null; cp /tmp/evidence_$PROP.bak /verif/evidence/$PROP.json 2>/dev/null
 echo "seed=$NAME property=$PROP exit=$RC"; grep -E "^VIOLATION|^KNOWN|^INCONCLUSIVE|^OK|detail:" /tmp/seedrun_${NAME}_${PROP}.log | cut -c1-260 | head -8
